@@ -1,0 +1,46 @@
+//go:build verif
+
+package component_definition
+
+// ---- tag arguments (abstract view used by the narrowing proofs; the concrete grammar is property C19) --------
+// ArgIn(m, t): the argument map has an entry for argument type t (after first-letter normalisation).
+// ArgHas1(m, t, w): ... and w is one of its values. Both are functions of the map object; tag arguments are
+// written only while a Property is being built (scan time), never during narrowing or injection.
+//@ spec func ArgIn(m TagArg, t ArgType) bool
+//@ spec func ArgHas1(m TagArg, t ArgType, w string) bool
+
+//@ func (TagArg).Find
+//@ trusted
+//@ assigns nothing
+//@ ensures [find-ok] result1 == ArgIn(m, argType)
+
+//@ func (TagArg).Has
+//@ trusted
+//@ assigns nothing
+//@ ensures [has-one] implies(len(wants) == 1, result == ArgHas1(m, argType, wants[0]))
+//@ ensures [has-any] implies(len(wants) == 0, result == ArgIn(m, argType))
+//@ ensures [has-needs-entry] implies(result, ArgIn(m, argType))
+
+//@ func (*Property).Args
+//@ property C08
+//@ pure
+//@ assigns nothing
+//@ ensures [args] result == n.args
+
+//@ func (*Property).IsRequired
+//@ property C08 C09 C19
+//@ pure
+//@ assigns nothing
+//@ ensures [only-explicit-false] result == !ArgHas1(n.args, ArgRequired, "false")
+
+//@ func (*Meta).IsAlias
+//@ property C08 C07
+//@ pure
+//@ assigns nothing
+//@ ensures [is-alias] result == (m.alias != "")
+
+//@ func (*Meta).Name
+//@ property C07 C01
+//@ pure
+//@ assigns nothing
+//@ ensures [meta-name] result == ite(m.alias != "", m.alias, m.name)
